@@ -29,7 +29,7 @@ func main() {
 	logger := zap.NewNop()
 
 	srv := server.NewServer()
-	handler := verifHandler(srv, didChangeHandler(srv, protocol.ServerHandler(newServerDispatcher(srv), nil)))
+	handler := verifHandler(srv, srv.FeatureGate(didChangeHandler(srv, protocol.ServerHandler(newServerDispatcher(srv), nil))))
 
 	stream := jsonrpc2.NewStream(stdrwc{})
 	conn := jsonrpc2.NewConn(stream)
